@@ -97,6 +97,7 @@ CONSTRUCTS = [
     "class {N}:\n    class bar: pass\n    @foo.setter\n    def bar(self): ...\n    @deprecated(Version('p', 1, 0, 0))\n    def baz(self): ...\n",
     "from zope.interface import implementer, Interface\nclass I{N}(Interface):\n    def m(): 'doc'\ndef some_function(): pass\n@implementer(some_function, I{N})\nclass {N}:\n    def m(self): pass\n",
     "{n} = re.compile('a{{99999999999999}}')\n{n}2 = re.compile('b{{1,99999999999999999999}}')\n",
+    "class {N}:\n    @staticmethod\n    def f(): ...\n    f = staticmethod(f)\n    @classmethod\n    def g(cls): ...\n    g = classmethod(g)\n    def h(self): ...\n    h = staticmethod(h)\n    h = classmethod(h)\n    @property\n    def p(self): ...\n    p = staticmethod(p)\n",
     "__all__ = [{{[]: 1}}, '{n}']\n",
     "__docformat__ = {{[]: 1}}\n",
     "def {n}(): pass\n{n}.__doc__ = {{[]: 1}}\n",
